@@ -479,18 +479,20 @@ def big_cases(rng):
     """> 1 Mpx canvas: a couple of bright blobs and a ladder of dim blobs around the
     percentile threshold; odd and even offsets"""
     out = []
-    for pre in (True, False):
-        content = np.zeros((300, 260), dtype=np.uint8)
-        for k in range(3):
-            stamp(content, (rng.randint(20, 280), rng.randint(20, 240)), rng.randint(180, 250), 1.6, 6)
-        for k in range(14):
-            stamp(content, (20 + 19 * k, 30 + 14 * k + rng.randint(0, 4)), 6 + 3 * k, rng.choice([1.0, 1.4]), 5)
-        if pre:
-            nz = np.array([rng.randint(0, 3) for _ in range(content.size)], dtype=np.uint8).reshape(content.shape)
-            content = np.maximum(content, nz)
+    for pre in (True, False, False):
+        content = np.zeros((640, 420), dtype=np.uint8)
+        for k in range(8):
+            stamp(content, (30 + 75 * k + rng.randint(0, 9), 30 + rng.randint(0, 9)), rng.randint(150, 250), 2.0, 7)
+        # a fine ladder of dim blobs: peak values 3, 4, 5, ... (no noise) so that some peaks sit right at the percentile
+        # threshold, which is taken over the non-zero pixels, i.e. mostly over blob flanks
+        k = 0
+        for gy in range(8):
+            for gx in range(6):
+                stamp(content, (40 + 75 * gy + rng.randint(0, 5), 90 + 55 * gx + rng.randint(0, 5)), 3 + k, 2.0 + 0.1 * (k % 5), 8)
+                k += 1
         p = dict(diameter=rng.choice([7, 9, (7, 9)]), percentile=64, preprocess=pre)
-        o1 = (rng.randint(60, 400) | 1, rng.randint(60, 300) & ~1)
-        o2 = (o1[0] + 2 * rng.randint(30, 200) + 1, o1[1] + 2 * rng.randint(30, 180))
+        o1 = (rng.randint(40, 200) | 1, rng.randint(60, 200) & ~1)
+        o2 = (o1[0] + 2 * rng.randint(10, 150) + 1, o1[1] + 2 * rng.randint(10, 160) + 1)
         out.append(dict(kind='translation', content=content, shape1=(1200, 1000), shape2=(1200, 1000), off1=o1, off2=o2,
                         params=p, post={}, gen='big'))
     return out
@@ -691,9 +693,13 @@ def expected_batch(c, order):
     """the property's words: locate on each frame, tagged with its frame number, concatenated"""
     rows, cols = [], None
     for k, i in enumerate(order):
-        df = run_locate(np.asarray(c['frames'][i]), c['params'])
+        # same object type as batch hands to locate (an ndarray subclass takes slightly different numpy code paths:
+        # float statistics such as ecc can differ in the last bit from locate on the plain array)
+        df = run_locate(wrap_frames(c, [i])[0], c['params'])
         if isinstance(df, str):
             return df, None
+        if 'frame' in df.columns:
+            df = df.drop(columns=['frame'])
         t = c['tagging']
         tagged = t in ('frame_no', 'lossy') or (t == 'partial' and i % 2 == 0)
         no = c['nos'][i] if tagged else k
@@ -738,7 +744,7 @@ def eval_batch(chk, c, procs):
             if ok:
                 g = np.array(got.values.tolist(), dtype=float)
                 e = np.array(exp, dtype=float)
-                ok = np.array_equal(g, e, equal_nan=True)
+                ok = g.shape == e.shape and bool(np.all(np.isclose(g, e, rtol=1e-12, atol=0, equal_nan=True)))
             if not ok:
                 what = 'columns' if gcols != cols + ['frame'] else ('row count %d vs %d' % (len(got), len(exp)) if len(got) != len(exp) else
                                                                   ('index' if list(got.index) != list(range(len(exp))) else 'values/frame numbers/order'))
